@@ -28,8 +28,7 @@ structure Sess where
 
 def keyOf (modc : Bool) (v : Nat) : Nat := if modc then v % 10 else v
 /-- the harness comparators (deliberately not -1/0/1) -/
-def cmpOf (modc : Bool) (a b : Nat) : Int :=
-  if keyOf modc a > keyOf modc b then 7 else if keyOf modc a < keyOf modc b then -3 else 0
+def cmpOf (modc : Bool) : Nat → Nat → Int := Spec.keyCmp (keyOf modc)
 
 def insDesc (x : Nat) : List Nat → List Nat
   | [] => [x]
